@@ -49,3 +49,8 @@ package dsig
 //@   trusted A-SIG: go-jose verification
 //@   requires s != nil && s.jws != nil && key != nil
 //@   ensures err == nil <==> jwsValid(s, key)
+//
+//@ func (k *PrivateKey) Sign(data) (sig, err)
+//@   trusted A-SIG: signing a header with a usable ES256 key succeeds and yields a real signature
+//@   requires k != nil
+//@   ensures err == nil && sig != nil && sig.jws != nil && fresh(sig)
